@@ -95,8 +95,8 @@ def check_formalism(spec):
         count = 0
         for outs, hist, st in XM.all_branches(list(new.operations), wires):
             count += 1
-            vec, rest = XM.extract(st, [idx[w] for w in out_wires], n)
-            if rest > 1e-18 * max(1.0, float(np.sum(np.abs(st) ** 2))) and rest > 1e-20:
+            vec, rest = XM.extract(st, out_wires)
+            if rest > 1e-20:
                 return bad("formalism:ancilla-not-reset", rest, 0.0, outcomes=outs)
             cols.setdefault(tuple(outs), {})[j] = vec.reshape(-1)
         if nbranch is None:
@@ -210,12 +210,13 @@ def check_byproduct(spec):
     out_wires = list(new.measurements[0].wires)
 
     def is_correction(op):
-        return type(op).__name__ == "Conditional" and op.base.name in ("PauliX", "PauliZ")
+        # offline mode: byproduct corrections AND the circuit's own Pauli gates are tracked in software, not executed
+        return (type(op).__name__ == "Conditional" and op.base.name in ("PauliX", "PauliZ")) or op.name in ("PauliX", "PauliY", "PauliZ")
 
     nb = 0
     for outs, hist, st in XM.all_branches(list(new.operations), wires, skip_op=is_correction):
         nb += 1
-        vec, rest = XM.extract(st, [idx[w] for w in out_wires], n)
+        vec, rest = XM.extract(st, out_wires)
         p = np.abs(vec.reshape(-1)) ** 2
         p = p / p.sum()
         corr = np.asarray(get_byproduct_corrections(tape, [int(o) for o in outs], [0] * nw)).astype(int).reshape(-1)
